@@ -70,6 +70,8 @@ func init() {
 	add("C08", "C08.lock (the request handlers read the hashgraph — eventDiff, knownEvents, the anchor block and its frame — only under Node.coreLock: an unlocked read races with the gossip routines' writes to the same maps, and a concurrent map read and write aborts the process; shared with C17.lock).", rd("C08.lock"))
 	add("C17", "C17.lock (see C08.lock: a suspended node keeps answering sync requests without racing with its own state).", rd("C17.lock"))
 	add("C17", "C17.answers (each request handler calls rpc.Respond on every path to its return: a suspended node that lets a sync request through the gate does answer it).", as1(answersRule, "C17.answers"))
+	add("C03", "C03.perevent (one full consensus pass after every inserted event — Hashgraph.InsertEvent has no caller but InsertEventAndRunConsensus, which runs the four passes in order before every success return: with known finding F-C03-2 the consensus result is exact only for this schedule; shared with C01.perevent).", as1(perEventRule, "C03.perevent"))
+	add("C01", "C01.perevent (see C03.perevent).", as1(perEventRule, "C01.perevent"))
 	add("C01", "C01.mapcut (see C03.mapcut).", as(mapCutRule, "C01.mapcut", consensusFuncs))
 	add("C13", "C13.mapcut (see C03.mapcut, for the functions that build a frame).", as(mapCutRule, "C13.mapcut", frameFuncs))
 }
@@ -1339,4 +1341,125 @@ func answersRule(p *Prog, r *Report, rule string) {
 func statesOf(p *Prog) map[string]int64 {
 	m, _ := stateConsts(p)
 	return m
+}
+
+/* ---------- C03.perevent / C01.perevent (seed C01g) ---------- */
+
+// perEventRule: the consensus passes run after EVERY insertion. The first-descendant walk of InsertEvent reads what the
+// passes have recorded (known finding F-C03-2): its result is exact only for the schedule the node uses — one full pass
+// (DivideRounds, DecideFame, DecideRoundReceived, ProcessDecidedRounds, in that order) after each inserted event. Hence:
+// Hashgraph.InsertEvent has no caller other than InsertEventAndRunConsensus, and every success return of
+// InsertEventAndRunConsensus is preceded by the four passes in order.
+func perEventRule(p *Prog, r *Report, rule string) {
+	r.Rule(rule, 2, "one full consensus pass after every inserted event: InsertEvent is called only by InsertEventAndRunConsensus, which runs DivideRounds, DecideFame, DecideRoundReceived, ProcessDecidedRounds in order before every success return")
+	ins := p.Func(HG, "Hashgraph", "InsertEvent")
+	iar := p.Func(HG, "Hashgraph", "InsertEventAndRunConsensus")
+	if ins == nil || iar == nil {
+		r.Anchor(rule, "hashgraph.(*Hashgraph).InsertEvent / InsertEventAndRunConsensus")
+		return
+	}
+	var bad []string
+	for _, e := range cgCallers(p, ins) {
+		cf := e.Caller.Func
+		if !inModule(cf) || cf.Synthetic != "" {
+			continue
+		}
+		root := cf
+		for root.Parent() != nil {
+			root = root.Parent()
+		}
+		if root != iar {
+			bad = append(bad, fnName(cf)+"@"+p.ipos(e.Site))
+		}
+	}
+	sort.Strings(bad)
+	r.Check(len(bad) == 0, rule, "InsertEvent:callers", p.pos(ins.Pos()), fnName(ins), "called only by InsertEventAndRunConsensus", "Hashgraph.InsertEvent is also called from "+strings.Join(bad, ", ")+": an event inserted without the consensus pass that follows it changes what the next insertion's first-descendant walk sees (it reads the recorded witness flags, known finding F-C03-2), so strongly-see, fame and blocks come to depend on how the node received its events")
+	passes := []string{"InsertEvent", "DivideRounds", "DecideFame", "DecideRoundReceived", "ProcessDecidedRounds"}
+	isPass := map[string]bool{}
+	for _, m := range passes {
+		isPass[m] = true
+	}
+	// the sequence of pass calls that dominate a return of fn, helpers (module methods of Hashgraph that are not passes
+	// themselves) expanded in place
+	retAt := func(rp retPoint) ssa.Instruction {
+		if rp.pred != nil && len(rp.pred.Instrs) > 0 {
+			return rp.pred.Instrs[len(rp.pred.Instrs)-1]
+		}
+		return rp.ret
+	}
+	var seqBefore func(fn *ssa.Function, ret ssa.Instruction, depth int) []string
+	seqBefore = func(fn *ssa.Function, ret ssa.Instruction, depth int) []string {
+		var cs []ssa.CallInstruction
+		for _, b := range fn.Blocks {
+			for _, in := range b.Instrs {
+				ci, isC := in.(ssa.CallInstruction)
+				if !isC {
+					continue
+				}
+				sf := ci.Common().StaticCallee()
+				if sf == nil || !inModule(sf) || recvNamedSig(sf) != "Hashgraph" {
+					continue
+				}
+				if dominates(ci, ret) {
+					cs = append(cs, ci)
+				}
+			}
+		}
+		sort.SliceStable(cs, func(a, b int) bool { return dominates(cs[a], cs[b]) && cs[a] != cs[b] })
+		var out []string
+		for _, ci := range cs {
+			sf := ci.Common().StaticCallee()
+			name := sf.Name()
+			if o, isF := sf.Object().(*types.Func); isF && o != nil {
+				sn := shortName(o)
+				name = sn[strings.LastIndex(sn, ".")+1:]
+			}
+			if isPass[name] {
+				out = append(out, name)
+				continue
+			}
+			if depth > 0 {
+				// a helper: what it has run before each of ITS success returns (the weakest of them)
+				var common []string
+				first := true
+				for _, rp := range p.succRets(sf, errNil, 0) {
+					sq := seqBefore(sf, retAt(rp), depth-1)
+					if first {
+						common, first = sq, false
+						continue
+					}
+					// keep the longest common prefix-subsequence (conservative)
+					var keep []string
+					k := 0
+					for _, x := range common {
+						for k < len(sq) && sq[k] != x {
+							k++
+						}
+						if k < len(sq) {
+							keep = append(keep, x)
+							k++
+						}
+					}
+					common = keep
+				}
+				out = append(out, common...)
+			}
+		}
+		return out
+	}
+	succ := p.succRets(iar, errNil, 0)
+	ok, why := len(succ) > 0, ""
+	for _, rp := range succ {
+		sq := seqBefore(iar, retAt(rp), 2)
+		k := 0
+		for _, x := range sq {
+			if k < len(passes) && x == passes[k] {
+				k++
+			}
+		}
+		if k < len(passes) {
+			ok, why = false, "a success return ("+p.ipos(rp.ret)+") is reached after ["+strings.Join(sq, ", ")+"]: "+passes[k]+" is missing (or out of order)"
+		}
+	}
+	r.Check(ok, rule, "InsertEventAndRunConsensus:insert-then-four-passes-in-order", p.pos(iar.Pos()), fnName(iar), "insert, DivideRounds, DecideFame, DecideRoundReceived, ProcessDecidedRounds before every success return", why)
 }
